@@ -98,7 +98,7 @@ def run(replay=None):
         for lat, impl, P in (("stream", "stream", 4), ("sorter", "sorter", 5), ("crypto", "crypto", 5)):
             walks = c.simulate("Reassembly_Sim.tla", {"P": P, "Off": "<- OffId", "Limit0": 3 if impl != "crypto" else 4,
                                                       "MaxGaps": 1000, "Impl": impl, "Codes": {7}, "D": 14 if not thorough else 40},
-                               num=2000 if not thorough else 40000, depth=14 if not thorough else 40, spec="SimSpec")
+                               num=2000 if not thorough else 10000, depth=14 if not thorough else 40, spec="SimSpec")
             for s in walks:
                 cases.append({"group": lat, "cfg": LATTICES[lat], "ops": [named(o) for o in s]})
         # the gap limit (1000 gaps) - scripted: odd cells of a 2100-cell lattice
